@@ -89,4 +89,198 @@ theorem step_terminal_trace (P : Prog) (c : Cfg) (ev : Ev) (ht : terminal c.st.l
     · dsimp only; split <;> rfl
     · rfl
 
+
+/-! ### `Deliv` under the control calls and scheduled callbacks -/
+
+/-- `d` differs from `c` in nothing `Deliv` looks at (an interruption may have been written into a PENDING future) -/
+def Quiet (c d : Cfg) : Prop :=
+  d.st = c.st ∧ d.stepping = c.stepping ∧ d.trace = c.trace ∧
+  (∀ wf, wfOf c.st = some wf → c.wfs[wf]? ≠ some .pending → d.wfs = c.wfs)
+
+theorem Quiet.of_eq {c d : Cfg} (h1 : d.st = c.st) (h2 : d.stepping = c.stepping) (h3 : d.trace = c.trace) (h4 : d.wfs = c.wfs) :
+    Quiet c d := ⟨h1, h2, h3, fun _ _ _ => h4⟩
+
+theorem holds_not_pending {c : Cfg} {wf : Nat} {wk : Option WF} {v : Option Val} (hh : Holds c wf wk v) :
+    c.wfs[wf]? ≠ some .pending := by
+  rcases hh with g | ⟨⟨k, g⟩, _⟩ <;> rw [g] <;> intro h <;> cases h
+
+theorem Deliv.quiet {fn : Nat} {v : Option Val} {t0 : List Act} {c d : Cfg} (h : Deliv fn v t0 c) (q : Quiet c d) :
+    Deliv fn v t0 d := by
+  cases h with
+  | held wf wk aw hst hh ht =>
+    have hw : d.wfs = c.wfs := q.2.2.2 wf (by rw [hst]; rfl) (holds_not_pending hh)
+    exact .held wf wk aw (q.1.trans hst) (by unfold Holds at *; rw [hw]; exact hh) (q.2.2.1.trans ht)
+  | ready hst hns ht => exact .ready (q.1.trans hst) (q.2.1.trans hns) (q.2.2.1.trans ht)
+  | over hterm ht => exact .over (by rw [q.1]; exact hterm) (q.2.2.1.trans ht)
+  | done extra ht => exact .done extra (q.2.2.1.trans ht)
+
+theorem Deliv.terminated {fn : Nat} {v : Option Val} {t0 : List Act} {c d : Cfg} (h : Deliv fn v t0 c)
+    (hterm : terminal d.st.label = true) (htr : d.trace = c.trace) : Deliv fn v t0 d := by
+  cases h with
+  | held wf wk aw hst hh ht => exact .over hterm (htr.trans ht)
+  | ready hst hns ht => exact .over hterm (htr.trans ht)
+  | over _ ht => exact .over hterm (htr.trans ht)
+  | done extra ht => exact .done extra (htr.trans ht)
+
+theorem Deliv.trext {fn : Nat} {v : Option Val} {t0 : List Act} {c d : Cfg} (extra : List Act)
+    (ht : c.trace = extra ++ actOf fn v :: t0) (hx : TrExt c d) : Deliv fn v t0 d := by
+  obtain ⟨x, hx⟩ := hx.ext
+  exact .done (x ++ extra) (by rw [hx, ht, List.append_assoc])
+
+theorem requestInterrupt_wfs (c : Cfg) (k : AKind) (wf : Nat) (hw : wfOf c.st = some wf) (hnp : c.wfs[wf]? ≠ some .pending) :
+    (requestInterrupt c k).wfs = c.wfs := by
+  have h2 := setInterruptFromExc_rest { c with nextCookie := c.nextCookie + 1 } k c.nextCookie
+  obtain ⟨fn, wk, aw, hst⟩ := wfOf_waiting hw
+  unfold requestInterrupt interruptState
+  have hst2 : (setInterruptFromExc { c with nextCookie := c.nextCookie + 1 } k c.nextCookie).st = .waiting fn wf wk aw :=
+    h2.st.trans hst
+  simp only [hst2]
+  have hw2 : (setInterruptFromExc { c with nextCookie := c.nextCookie + 1 } k c.nextCookie).wfs = c.wfs := h2.wfs
+  rw [hw2]
+  simp only [hnp, if_false]
+  exact hw2
+
+theorem pause_quiet (c : Cfg) : Quiet c (pause c).1 := by
+  have hq : ∀ k, Quiet c (requestInterrupt c k) := fun k =>
+    ⟨(requestInterrupt_fields c k).1, (requestInterrupt_fields c k).2.2.1, (requestInterrupt_sameP c k).2.1,
+      fun wf h1 h2 => requestInterrupt_wfs c k wf h1 h2⟩
+  have hh : ∀ (d : Cfg) i, Quiet c d → Quiet c (hand d i) := by
+    intro d i q
+    unfold hand; split
+    · exact q
+    · exact q
+  unfold pause
+  split
+  · exact Quiet.of_eq rfl rfl rfl rfl
+  · split
+    · exact Quiet.of_eq rfl rfl rfl rfl
+    · split
+      · exact hh c _ (Quiet.of_eq rfl rfl rfl rfl)
+      · split
+        · exact Quiet.of_eq rfl rfl rfl rfl
+        · split
+          · dsimp only
+            split
+            · exact hh _ _ (hq .pause)
+            · exact hq .pause
+          · exact Quiet.of_eq rfl rfl rfl rfl
+
+theorem play_quiet (c : Cfg) : Quiet c (play c).1 := by
+  unfold play
+  split
+  · split
+    · have h := (cancelAction_rest c ‹Nat›).1
+      exact Quiet.of_eq h.st h.stepping h.trace h.wfs
+    · exact Quiet.of_eq rfl rfl rfl rfl
+  · dsimp only; split <;> exact Quiet.of_eq rfl rfl rfl rfl
+
+theorem kill_quiet (c : Cfg) : Quiet c (kill c).1 ∨ terminal (kill c).1.st.label = true := by
+  have hq : ∀ k, Quiet c (requestInterrupt c k) := fun k =>
+    ⟨(requestInterrupt_fields c k).1, (requestInterrupt_fields c k).2.2.1, (requestInterrupt_sameP c k).2.1,
+      fun wf h1 h2 => requestInterrupt_wfs c k wf h1 h2⟩
+  have hh : ∀ (d : Cfg) i, Quiet c d → Quiet c (hand d i) := by
+    intro d i q
+    unfold hand; split
+    · exact q
+    · exact q
+  unfold kill
+  split
+  · exact Or.inl (Quiet.of_eq rfl rfl rfl rfl)
+  · split
+    · exact Or.inl (Quiet.of_eq rfl rfl rfl rfl)
+    · split
+      · exact Or.inl (hh c _ (Quiet.of_eq rfl rfl rfl rfl))
+      · split
+        · dsimp only
+          split
+          · exact Or.inl (hh _ _ (hq .kill))
+          · exact Or.inl (hq .kill)
+        · exact Or.inr (transitionTo_terminal c .killed (by simp [SObj.label, terminal, allowed]))
+
+theorem kill_deliv {fn : Nat} {v : Option Val} {t0 : List Act} (c : Cfg) (h : Deliv fn v t0 c) : Deliv fn v t0 (kill c).1 := by
+  rcases kill_quiet c with q | ht
+  · exact h.quiet q
+  · exact h.terminated ht (kill_trace c)
+
+theorem fail_deliv {fn : Nat} {v : Option Val} {t0 : List Act} (c : Cfg) (e) (h : Deliv fn v t0 c) :
+    Deliv fn v t0 (fail c e).1 := by
+  unfold fail; split
+  · exact h
+  · exact h.terminated (transitionTo_terminal c _ (by simp [SObj.label, terminal, allowed])) (transitionTo_core c _).trace
+
+/-- a wait that holds an outcome ignores every further delivery (`C06_later_resume_ignored`,
+`C06_parked_not_overwritten` in one) -/
+theorem deliver_held_noop (c : Cfg) (o : WF) (fn wf : Nat) (wk : Option WF) (aw : List (Nat × Nat)) (v : Option Val)
+    (hst : c.st = .waiting fn wf wk aw) (hh : Holds c wf wk v) : deliver c o = c := by
+  unfold deliver
+  rcases hh with g | ⟨⟨k, g⟩, hwk⟩
+  · simp [hst, g]
+  · simp [hst, g, hwk]
+
+theorem deliver_deliv {fn : Nat} {v : Option Val} {t0 : List Act} (c : Cfg) (o : WF) (h : Deliv fn v t0 c) :
+    Deliv fn v t0 (deliver c o) := by
+  cases h with
+  | held wf wk aw hst hh ht => rw [deliver_held_noop c o fn wf wk aw v hst hh]; exact .held wf wk aw hst hh ht
+  | ready hst hns ht =>
+    have : deliver c o = c := by unfold deliver; simp [hst]
+    rw [this]; exact .ready hst hns ht
+  | over hterm ht =>
+    have : deliver c o = c := by
+      obtain ⟨_, _, h3⟩ := not_live_of_terminal hterm
+      unfold deliver
+      split
+      · rename_i fn' wf' wk' aw' hst; exact absurd hst (h3 fn' wf' wk' aw')
+      · rfl
+    rw [this]; exact .over hterm ht
+  | done extra ht => exact .done extra ((deliver_sameP c o).2.1.trans ht)
+
+theorem resume_deliv {fn : Nat} {v : Option Val} {t0 : List Act} (c : Cfg) (u) (h : Deliv fn v t0 c) :
+    Deliv fn v t0 (resume c u).1 := by
+  unfold resume; split
+  · exact deliver_deliv c _ h
+  · exact h
+
+theorem awaitableDone_deliv {fn : Nat} {v : Option Val} {t0 : List Act} (c : Cfg) (f) (h : Deliv fn v t0 c) :
+    Deliv fn v t0 (awaitableDone c f) := by
+  unfold awaitableDone
+  have hold : ∀ d : Cfg, Deliv fn v t0 d → Deliv fn v t0 (match d.efKeys.find? (·.1 = f), d.efs[f]? with
+      | some (_, key), some (EFut.result v) => { d with ctx := (key, v) :: d.ctx.filter (·.1 ≠ key) }
+      | _, _ => d) := by
+    intro d hd; split
+    · exact hd.quiet (Quiet.of_eq rfl rfl rfl rfl)
+    · exact hd
+  dsimp only
+  split
+  · rename_i fn' wf wakeup aw hst
+    split
+    · exact hold c h
+    · -- `f` leaves the awaiting set: same epoch, same wait
+      have h1 : Deliv fn v t0 { c with st := .waiting fn' wf wakeup (aw.filter (·.1 ≠ f)) } := by
+        cases h with
+        | held wf' wk' aw' hst' hh ht =>
+          rw [hst] at hst'; cases hst'
+          exact .held wf wakeup _ rfl hh ht
+        | ready hst' _ _ => rw [hst] at hst'; cases hst'
+        | over hterm _ => rw [hst] at hterm; simp [SObj.label, terminal, allowed] at hterm
+        | done extra ht => exact .done extra ht
+      split
+      · split
+        · exact deliver_deliv _ _ (h1.quiet (Quiet.of_eq rfl rfl rfl rfl))
+        · exact h1.quiet (Quiet.of_eq rfl rfl rfl rfl)
+      · exact deliver_deliv _ _ h1
+      · exact h1
+  · exact hold c h
+
+theorem tickCb_deliv {fn : Nat} {v : Option Val} {t0 : List Act} (c : Cfg) (cb) (h : Deliv fn v t0 c) :
+    Deliv fn v t0 (tickCb c cb) := by
+  unfold tickCb; split
+  · have h1 : Deliv fn v t0 { c with ready := c.ready.erase cb } := h.quiet (Quiet.of_eq rfl rfl rfl rfl)
+    split
+    · exact awaitableDone_deliv _ _ h1
+    · exact (kill_deliv _ h1).quiet (Quiet.of_eq rfl rfl rfl rfl)
+    · split
+      · exact fail_deliv _ _ h1
+      · exact h1
+  · exact h
+
 end PMF.H6
